@@ -45,7 +45,8 @@ MANIFEST = {
     'note': 'Occupation functions, np.sqrt and float rounding are abstract/not modelled; fast_concatenate is represented by ++ here '
             '(its thread-level model is proved equal to ++ in C10).  Convention as coded (not a finding): the first slice is closed '
             'at 0 even when its tracer is disabled, so r = 0 selects the disabled tracer\'s empty slice and the host hosts nothing '
-            'visible.  Note on the property text: "nested as incompleteness grows" holds per tracer in its own ic and in aggregate, '
+            'visible (the compiled fill then reads the never-assigned alpha_c of that tracer, which numba zero-initialises; the '
+            'auxiliary py_func run raises UnboundLocalError exactly on these tie inputs; the row lands in a table gen_gals drops).  Note on the property text: "nested as incompleteness grows" holds per tracer in its own ic and in aggregate, '
             'but raising an EARLIER tracer\'s ic shifts later slices (nested_in_ic_not_across_tracers).  Theorems are closed under '
             'the global context.',
 }
@@ -537,6 +538,11 @@ def model_inputs(case, occ):
 def impl_explore(payload):
     """Build every case from its spec, run the compiled gen_gal_cat, judge it with the oracle; return compact results."""
     res = []
+    if payload.get('py_func'):
+        # auxiliary run: the pure-Python bodies of the kernels (Python index semantics raise IndexError; not always faithful)
+        from abacusnbody.hod import GRAND_HOD as G
+        for name in ('gen_cent', 'gen_sats', 'fast_concatenate'):
+            setattr(G, name, getattr(G, name).py_func)
     for spec in payload['specs']:
         case = case_from_json(spec['explicit']) if 'explicit' in spec else build_case(spec)
         occ = occupations(case)
@@ -606,23 +612,70 @@ def run_modes(ctx, specs, want_model_inputs=True):
     import concurrent.futures as cf
     payload = {'specs': specs, 'want_model_inputs': want_model_inputs}
     modes = {}
-    with cf.ThreadPoolExecutor(max_workers=2) as ex:
+    with cf.ThreadPoolExecutor(max_workers=3) as ex:
         futs = {'compiled': ex.submit(ctx.run_impl, 'harness.c09', 'impl_explore', payload),
                 'boundscheck': ex.submit(ctx.run_impl, 'harness.c09', 'impl_explore', dict(payload, want_model_inputs=False),
                                          {'NUMBA_BOUNDSCHECK': '1'})}
+        small = [s for s in specs if s['H'] + s['P'] <= 45][:40]
+        fpy = ex.submit(ctx.run_impl, 'harness.c09', 'impl_explore',
+                        {'specs': small, 'want_model_inputs': False, 'py_func': True, 'want_explicit': False})
         for k, f in futs.items():
             try:
                 modes[k] = f.result()
             except Exception as e:  # noqa: BLE001   (a crashed interpreter: out-of-bounds writes of a broken kernel)
                 modes[k] = None
                 ctx.notes.append(f'{k} run died: {str(e)[:300]}')
+        try:
+            pyr = fpy.result()
+            ctx.py_func_stats = {'cases': len(small), 'disagreements': sum(1 for r in pyr if r['violation'] is not None),
+                                 'first': next(({'idx': r['idx'], 'what': r['violation']['what'][:120]} for r in pyr
+                                                if r['violation'] is not None), None)}
+        except Exception as e:  # noqa: BLE001
+            ctx.py_func_stats = {'cases': len(small), 'error': str(e)[-200:]}
     return modes
+
+
+def probe_crash(ctx, specs, module='harness.c09', fn='impl_explore', extra=None, max_probes=6):
+    """A whole implementation run died (a kernel that writes out of bounds corrupts the heap): rerun a few small cases, one
+    fresh interpreter each (under NUMBA_BOUNDSCHECK=1), to pin the failure to an input."""
+    import concurrent.futures as cf
+    cands, seen_sub = [], set()
+    for s in sorted(specs, key=lambda s: s['H'] + s['P']):
+        if s['H'] >= 5 and s['P'] >= 5 and tuple(s['subset']) not in seen_sub:
+            seen_sub.add(tuple(s['subset']))
+            cands.append(s)
+    cands = cands[:max_probes]
+
+    def one(s):
+        try:
+            return ctx.run_impl(module, fn, dict({'specs': [s], 'want_model_inputs': False}, **(extra or {})),
+                                {'NUMBA_BOUNDSCHECK': '1'})[0]
+        except Exception as e:  # noqa: BLE001
+            return dict(idx=s['idx'], outcome='oob', inferred=None,
+                        violation=dict(what='the interpreter died while running gen_gal_cat on this input (memory corrupted by an '
+                                            'out-of-bounds access)', error=str(e)[-200:]))
+    with cf.ThreadPoolExecutor(max_workers=3) as ex:
+        return list(zip(cands, ex.map(one, cands)))
 
 
 def explore(ctx):
     specs = make_specs(ctx)
     modes = run_modes(ctx, specs)
     counterexamples, seen = [], set()
+    if any(v is None for v in modes.values()):
+        probes = probe_crash(ctx, specs)
+        modes['crash-probe'] = None
+        for s, r in probes:
+            if r['violation'] is not None:
+                k = key_of(s, r['violation'])
+                if k not in seen:
+                    seen.add(k)
+                    counterexamples.append({
+                        'key': k, 'what': r['violation']['what'], 'mode': 'crash-probe (NUMBA_BOUNDSCHECK=1, fresh interpreter)',
+                        'size': s['H'] + s['P'], 'input': r.get('explicit') or {'spec': s},
+                        'impl_result': {kk: vv for kk, vv in r['violation'].items() if kk != 'what'},
+                        'expected': 'a catalogue; no access outside the arrays',
+                        'predicate': 'gen_gal_cat returns and satisfies the slice rule / fill formulas'})
     dist = {'subsets': {}, 'rsd': 0, 'light_cone': 0, 'ranks': 0, 'AB': 0, 'conformity': 0, 'velbias': 0, 'ties': 0,
             'H0': 0, 'galaxies': 0, 'outcomes': {}}
     nontrivial = set()
@@ -691,6 +744,7 @@ def explore(ctx):
         'samples': [{'spec': specs[i], 'sizes': (comp[i].get('sizes') if comp else None)} for i in (0, len(specs) // 2, len(specs) - 1)],
         'traces_validated_against_impl': validated, 'exhaustive': False, 'input_distribution': dist,
         'mismatches': mismatches, 'counterexamples': counterexamples,
+        'py_func_auxiliary': getattr(ctx, 'py_func_stats', None),
         'float_residual': 'velocities/box-RSD z within 4 ulp of the float64 recomputation, light-cone positions within 1e-12 relative; '
                           'copied columns bitwise',
     }
@@ -724,12 +778,13 @@ def replay(ctx, rec):
     spec = dict(inp['spec'])
     if 'halo' in inp:
         spec = dict(spec, explicit=inp)
-    res = ctx.run_impl('harness.c09', 'impl_explore', {'specs': [spec], 'want_model_inputs': False, 'want_explicit': False})[0]
-    try:
-        res_b = ctx.run_impl('harness.c09', 'impl_explore', {'specs': [spec], 'want_model_inputs': False, 'want_explicit': False},
-                             {'NUMBA_BOUNDSCHECK': '1'})[0]
-    except Exception as e:  # noqa: BLE001
-        res_b = {'violation': {'what': 'bounds-checked run died', 'error': str(e)[:200]}}
-    still = res['violation'] is not None or res_b['violation'] is not None
-    return still, {'spec': inp['spec'], 'compiled': res.get('violation'), 'boundscheck': res_b.get('violation'),
-                   'sizes': res.get('sizes')}
+    out = {}
+    for mode, envx in (('compiled', None), ('boundscheck', {'NUMBA_BOUNDSCHECK': '1'})):
+        try:
+            out[mode] = ctx.run_impl('harness.c09', 'impl_explore', {'specs': [spec], 'want_model_inputs': False,
+                                                                      'want_explicit': False}, envx)[0]
+        except Exception as e:  # noqa: BLE001
+            out[mode] = {'violation': {'what': 'the interpreter died', 'error': str(e)[-200:]}}
+    still = any(o['violation'] is not None for o in out.values())
+    return still, {'spec': inp['spec'], 'compiled': out['compiled'].get('violation'),
+                   'boundscheck': out['boundscheck'].get('violation'), 'sizes': out['compiled'].get('sizes')}
